@@ -27,4 +27,17 @@ df74ccb C13 D7-ENOTDIR-aborts-scan
 7b7999c C19 D15-specs-vendor-args-ignored
 1320ea2 C08 D16-writespec-nil-panic
 748fe15 C17 D17-none-schema-content-check
+4537553 C01 D18-symlinked-spec-directory
+c123eee C03 D19-env-variable-defined-twice
+3105071 C09 D20-json-characters-the-reader-refuses
+a8f5ac1 C17 D21-json-path-taken-for-a-url
+26e4756 C17 D22-flow-yaml-taken-for-json
+4610af1 C20 D23-straggler-watcher-goroutine
+911e44b C11 D24-directory-renamed-away
+a18d2db C11 D25-event-queue-overflow
+081c096 C13 D26-refresh-does-not-rescan-in-auto-mode
+702b770 C14 D27-oci-result-aliases-cache
+fcec3d8 C13 D28-removed-symlinked-directory
+f6b267f C09 D29-unreadable-yaml
+f6b267f C18 D29-unreadable-yaml
 LIST
